@@ -154,7 +154,11 @@ def active_view(res: e3.BuildResult, *, complete: bool = True) -> dict:
         del view[k]
     # An input counts as declared when it is itself part of the active view (an attached file
     # that only a PENDING step's earlier run declared is as good as undeclared).
+    # ``memory_inp``: inputs that ARE attached in the stored graph but lie outside the view: all that
+    # declares them is the earlier run of a step that is not SUCCEEDED now (not compared; it tells
+    # D4, whose input is detached, from F9, whose input is kept alive by a plan that cannot rerun).
     for ent in view.values():
+        ent["memory_inp"] = sorted(x[0] for x in ent["inp"] if not x[1] and x[0] not in view and x[0] in nodes)
         for x in ent["inp"]:
             x[1] = x[0] not in view
     return view
@@ -542,6 +546,7 @@ SIG_F5 = "C01:F5:reattached-static-file-not-revalidated"
 SIG_F6 = "C01:F6:env-var-restored-to-declared-value-leaves-stale-output"
 SIG_F7 = "C01:F7:env-var-changed-while-step-detached-then-recycled"
 SIG_F8 = "C01:F8:glob-match-added-while-registrant-detached-then-recycled"
+SIG_F9 = "C01:F9:products-of-plan-that-cannot-rerun-keep-consumer-succeeded"
 MISSING_RE = "PathError: Path does not exist: "
 
 
@@ -600,18 +605,25 @@ def signatures(inc: e3.BuildResult, scr: e3.BuildResult, diffs: list, case: dict
     explained = set()
     # D4 pattern = K violated in the incremental result: an active SUCCEEDED step with an initial
     # input that is detached (nothing declares it), which a from-scratch build leaves unbuilt.
-    stale = set()
+    # F9 is the same violation of K with another cause: the input is still ATTACHED, but only as the
+    # product of an earlier run of a (sub-)plan that is PENDING / FAILED now and cannot run again
+    # (its own input is gone, or it fails); nothing was dropped and nothing recycled.
+    stale, stale_mem = set(), set()
     for k, ent in va.items():
-        if ent["kind"] == "step" and ent["state"] == "SUCCEEDED" and \
-                any(det and not dyn for _, det, dyn in ent["inp"]):
+        if ent["kind"] == "step" and ent["state"] == "SUCCEEDED":
+            gone = [sk for sk, det, dyn in ent["inp"] if det and not dyn]
             b = vb.get(k)
-            if b is None or b["state"] != "SUCCEEDED":
-                stale.add(k)
-    if stale:
-        cone = _downstream(va, stale) | _downstream(vb, stale)
-        mine = [d for d in diffs if d["kind"] == "rc" or d["key"] in cone]
-        sigs[SIG_D4] = mine
-        explained |= {id(d) for d in mine}
+            if gone and (b is None or b["state"] != "SUCCEEDED"):
+                if any(sk not in ent.get("memory_inp", ()) for sk in gone):
+                    stale.add(k)
+                else:
+                    stale_mem.add(k)
+    for name, seeds in ((SIG_D4, stale), (SIG_F9, stale_mem)):
+        if seeds:
+            cone = _downstream(va, seeds) | _downstream(vb, seeds)
+            mine = [d for d in diffs if id(d) not in explained and (d["kind"] == "rc" or d["key"] in cone)]
+            sigs[name] = mine
+            explained |= {id(d) for d in mine}
     # D9 pattern: an active step lists initial env vars that the current definition does not name.
     d9 = [d for d in diffs if d["kind"] == "prop:env" and set(d["a"]) > set(d["b"])]
     # ... second symptom of the same rows: the rerun of the re-defined step amends a variable whose
